@@ -650,6 +650,94 @@ def _padded_facets(model, rep):
        f"domain becomes a boundary node)", fn.lineno, fn.path)
 
 
+def _cyclic_facets(model, rep):
+    """Mesh3D.boundary_edges reads the edges of a boundary facet as the
+    pairs of *consecutive* rows of the stored facet (cyclically).  That is
+    right only if the stored facets keep the cyclic vertex order of the
+    reference facets; build_entities stores them sorted by default, and for
+    a quadrilateral the sorted order is not cyclic (consecutive entries
+    include a diagonal).  Every 3-D mesh class whose reference cell has
+    quadrilateral facets must build its facets with sort=False."""
+    from ..elements import load_refdoms
+    R4 = "C11-R4"
+    refdoms = load_refdoms(model)
+    n = 0
+    for c in model.all_classes():
+        if not c.path.startswith("skfem/mesh/"):
+            continue
+        ea = c.attrs.get("elem")
+        if ea is None or "elem" not in c.attrs:
+            continue
+        ecls = [x for x in model.all_classes() if x.name == src(ea)]
+        if not ecls:
+            continue
+        ra = ecls[0].find_attr("refdom")
+        rd = refdoms.get(src(ra[1])) if ra else None
+        if rd is None or rd.dim != 3 or not any(
+                len(set(f)) == 4 for f in (rd.facets or [])):
+            continue
+        n += 1
+        fi = c.find_method("_init_facets")
+        unsorted = fi is not None and any(
+            isinstance(k, ast.keyword) and k.arg == "sort" and isinstance(
+                k.value, ast.Constant) and k.value.value is False
+            for k in ast.walk(fi.node))
+        cons = f"{c.name}:facets-keep-cyclic-order"
+        if unsorted:
+            rep.ok(R4, cons, f"facets of {rd.name} cells are stored in the "
+                             f"cyclic order of the reference facets")
+        else:
+            rep.fail(R4, c.path, c.name, cons,
+                     f"{c.name} ({rd.name}: quadrilateral facets) builds "
+                     f"its facets sorted; Mesh3D.boundary_edges pairs "
+                     f"consecutive rows of the stored facets, which for a "
+                     f"sorted quadrilateral includes a diagonal: a single "
+                     f"reference wedge reports 6 of its 9 edges as "
+                     f"boundary edges and 3 'interior' edges", c.node.lineno)
+    if n < 2:
+        raise AnalysisError(f"only {n} 3-D mesh classes with quadrilateral "
+                            f"facets found")
+    # np.ravel_multi_index(X, dims) raises when an entry of X reaches dims:
+    # a bound taken from the largest entry of ONE array does not bound
+    # another (the candidate pairs include (a, a) from padded triangles and
+    # pairs of vertices that are no stored edge)
+    for c in model.all_classes():
+        fn = c.methods.get("boundary_edges")
+        if fn is None or not c.path.startswith("skfem/mesh/"):
+            continue
+        defs = {}
+        for x in walk_no_nested(fn.node):
+            if isinstance(x, ast.Assign) and len(x.targets) == 1 and \
+                    isinstance(x.targets[0], ast.Name):
+                defs[x.targets[0].id] = x.value
+        for x in walk_no_nested(fn.node):
+            if not (isinstance(x, ast.Call) and src(x.func).endswith(
+                    "ravel_multi_index") and len(x.args) == 2):
+                continue
+            arr = {y.id for y in ast.walk(x.args[0])
+                   if isinstance(y, ast.Name)}
+            d = x.args[1]
+            dd = defs.get(d.id) if isinstance(d, ast.Name) else d
+            bounders = {y.value.id for y in ast.walk(dd)
+                        if isinstance(y, ast.Attribute)
+                        and y.attr in ("max", "amax")
+                        and isinstance(y.value, ast.Name)} if dd is not None \
+                else set()
+            cons = f"{c.name}.boundary_edges:index-bound[{src(x.args[0])}]"
+            if bounders and not (bounders & arr):
+                rep.fail(R4, fn.path, f"{c.name}.boundary_edges", cons,
+                         f"'{src(x)[:60]}' encodes '{src(x.args[0])}' with "
+                         f"dims = '{src(dd)[:40]}', the largest entries of "
+                         f"ANOTHER array: an entry of "
+                         f"'{src(x.args[0])}' beyond them raises "
+                         f"'ValueError: invalid entry in coordinates "
+                         f"array' (wedge meshes after renumbering)",
+                         x.lineno)
+            else:
+                rep.ok(R4, cons, "the encoding bound covers the encoded "
+                                 "array")
+
+
 def _complements(model, rep):
     """interior_* = complement of boundary_* in the full index range:
     symbolic run with counting stubs."""
@@ -980,6 +1068,7 @@ def run(model: Model, rep, tier: str) -> None:
     _sentinel(model, rep, sentinel)
     _complements(model, rep)
     _padded_facets(model, rep)
+    _cyclic_facets(model, rep)
     rep.require_min("C11-R1", 7)
     rep.require_min("C11-R2", 30)
     rep.require_min("C11-R3", 4)
@@ -987,6 +1076,14 @@ def run(model: Model, rep, tier: str) -> None:
 
 _R = "skfem/refdom.py"
 MUTANTS = [
+    ("wedge facets stored sorted again",
+     ("skfem/mesh/mesh_wedge_1.py",
+      "            self.elem.refdom.facets,\n            sort=False,\n",
+      "            self.elem.refdom.facets,\n"), "C11-R4"),
+    ("boundary edge pairs encoded with the bound of the stored edges",
+     ("skfem/mesh/mesh_3d.py",
+      "        dims = (self.nvertices, self.nvertices)",
+      "        dims = A.max(0) + 1"), "C11-R4"),
     ("padded facets keyed with the repeated vertex in place",
      (FM, "            sorted_indexing[itr + 1:-1, rep] = sorted_indexing["
       "itr + 2:, rep]\n", "            pass\n"), "C11-R1"),
